@@ -59,6 +59,12 @@ func Run() bool {
 }
 
 func launch(name string) {
+	// listen for the daemon's signal before starting it: a daemon that calls Done()
+	// before the handler is registered would kill the launcher instead
+	interrupt := make(chan os.Signal, 1)
+	signal.Notify(interrupt, os.Interrupt)
+	defer signal.Stop(interrupt)
+
 	cmd := exec.Command(os.Args[0])
 	cmd.Env = append(os.Environ(), envDaemonName+"="+name, envDaemonFlag+"=isDaemon")
 	if err := cmd.Start(); err != nil {
@@ -77,9 +83,6 @@ func launch(name string) {
 		close(finished)
 	}()
 
-	interrupt := make(chan os.Signal, 1)
-	signal.Notify(interrupt, os.Interrupt)
-	defer signal.Stop(interrupt)
 	select {
 	case <-finished:
 	case <-interrupt:
